@@ -11,7 +11,7 @@ import os
 
 from . import terms as tm
 from .terms import T
-from .model import AnalysisError, dotted_parts
+from .model import AnalysisError, FunctionInfo, dotted_parts
 
 MAX_UNROLL = 600
 
@@ -118,7 +118,37 @@ class _Iter:
         return self.items[self.pos:]
 
 
-def clone(v):
+class _Closure:
+    """A function defined inside a function (a decorator's wrapper, a helper): its definition and the environment it closes over
+    (by reference, as in Python)."""
+
+    def __init__(self, fi, env):
+        self.fi, self.env = fi, env
+
+    def __repr__(self):
+        return "<closure %s>" % self.fi.qualname
+
+
+class _Obj:
+    """An instance of a class of the package: its class and its attributes. `tuple_like` instances (NamedTuple) also unpack,
+    index and compare like the tuple of their fields."""
+
+    def __init__(self, modname, cls, fields=None, tuple_like=False):
+        self.modname, self.cls, self.fields, self.tuple_like = modname, cls, dict(fields or {}), tuple_like
+
+    def __repr__(self):
+        return "<%s.%s %s>" % (self.modname, self.cls, {k: tm.show(v)[:40] for k, v in self.fields.items()})
+
+
+def clone(v, _memo=None):
+    if isinstance(v, _Obj):
+        _memo = {} if _memo is None else _memo
+        if id(v) in _memo:
+            return _memo[id(v)]
+        o = _Obj(v.modname, v.cls, {}, v.tuple_like)
+        _memo[id(v)] = o
+        o.fields = {k: clone(x, _memo) for k, x in v.fields.items()}
+        return o
     if isinstance(v, list):
         return [clone(x) for x in v]
     if isinstance(v, dict):
@@ -179,6 +209,16 @@ def _fact_closure(c):
             if depths:
                 out.append(T("forall", (min(depths), tm._fz(_unfz(m.args[1])), tm.truth(body)), tm.BOOL))
     return out
+
+
+def _unslice(k):
+    if isinstance(k, tuple) and len(k) == 4 and k[0] == "#slice":
+        return slice(k[1], k[2], k[3])
+    return _unfz(k) if isinstance(k, tuple) and k and isinstance(k[0], str) and k[0].startswith("#") else k
+
+
+def _fzslice(k):
+    return ("#slice", k.start, k.stop, k.step) if isinstance(k, slice) else tm._fz(k)
 
 
 _STRUCT_INT = {"B": 1, "H": 2, "I": 4, "L": 4, "Q": 8}
@@ -350,6 +390,7 @@ class Evaluator:
         self.bind = {}  # term -> concrete representative of its region (E4)
         self._cur_cls = None  # (module, class) of the method under evaluation
         self.objects = {}  # term -> {attribute: value}: objects whose attributes the scenario under analysis fixes (vars() / getattr())
+        self._opaque_log = []  # result terms of calls that were not inlined (their callee may raise anything)
         self.io_fn = None  # optional callable(method, receiver, args, kwargs) -> value / NotImplemented: scripted I/O device
         self.assume_fn = None  # optional callable(condition term) -> True / False / None: scripted outcome of environment predicates
 
@@ -386,6 +427,12 @@ class Evaluator:
             m = self.prog.module(modname)
             fr = Frame(self, modname, None, Summary(None), 0)
             val = tm.unk("undefined:%s.%s" % key)
+            imp = m.imports.get(name)
+            if imp is not None and imp[0] == "from" and not any(nm == name for nm, _v, _s in m.assign_nodes) and imp[1] in self.prog.modules:
+                # `from package.module import NAME`: the name is that module's constant
+                val = self.const(imp[1], imp[2])
+                self._const_cache[key] = val
+                return val
             for nm, vnode, st in m.assign_nodes:
                 if nm == name:
                     # names the value depends on are resolved lazily through const()
@@ -418,11 +465,13 @@ class Evaluator:
         return False
 
     # ------------------------------------------------------------------ functions
-    def run(self, fi, args=None, depth=0, use_defaults=False):
+    def run(self, fi, args=None, depth=0, use_defaults=False, closure_env=None):
         """Summarise function fi.  args: dict param -> value.  Missing params become symbolic, or -- with
         use_defaults=True -- take their declared default when they have one."""
         summary = Summary(fi)
         fr = Frame(self, fi.module.name, fi, summary, depth)
+        if closure_env:
+            fr.env.update(closure_env)  # free variables of a nested function: what the enclosing function had bound
         a = fi.node.args
         allp = a.posonlyargs + a.args
         defaults = [None] * (len(allp) - len(a.defaults)) + list(a.defaults)
@@ -445,6 +494,19 @@ class Evaluator:
             fr.env[a.vararg.arg] = args.get(a.vararg.arg, tm.param("*" + a.vararg.arg, tm.TUPLE))
         if a.kwarg:
             fr.env[a.kwarg.arg] = args.get(a.kwarg.arg, tm.param("**" + a.kwarg.arg, tm.DICT))
+        if closure_env is None and not getattr(self, "_raw_run", False) and depth == 0 and getattr(fi.node, "decorator_list", None) and fi.cls is None:
+            deco = self._package_decorators(fi, fr)
+            if deco:
+                # the function as callers see it: decorator(f) applied to the (symbolic) arguments
+                fv = T("fnraw", (fi.qualname,))
+                for d in reversed(deco):
+                    fv = self.call_value(d, [fv], {}, fi.node, fr)
+                pos = [fr.env[p.arg] for p in allp]
+                kwv = {p.arg: fr.env[p.arg] for p in a.kwonlyargs}
+                val = self.call_value(fv, pos, kwv, fi.node, fr)
+                summary.exits.append(Exit(fr.guard, "return", val, fi.node, fi.qualname, facts=fr.facts))
+                summary.env = fr.env
+                return summary
         fr.is_gen = _is_generator(fi.node)
         if fr.is_gen:
             fr.env["__yield__"] = []  # a generator is summarised by the list of values it yields, in order
@@ -607,7 +669,10 @@ class Evaluator:
         if isinstance(st, (ast.Pass, ast.Global, ast.Nonlocal, ast.Import, ast.ImportFrom)):
             return False
         if isinstance(st, ast.FunctionDef):
-            fr.env[st.name] = T("localfn", (st.name,))
+            mod = fr.fi.module if fr.fi is not None else self.prog.module(fr.modname)
+            fi2 = FunctionInfo(mod, st, None)
+            fi2.qualname = (fr.fi.qualname if fr.fi is not None else fr.modname) + ".<locals>." + st.name
+            fr.env[st.name] = _Closure(fi2, fr.env)
             return False
         if isinstance(st, ast.Break):
             raise _Break()
@@ -642,6 +707,8 @@ class Evaluator:
                     self.assign(e, tm.idx(v, -(after - j)), fr)
         elif isinstance(t, (ast.Tuple, ast.List)):
             n = len(t.elts)
+            if isinstance(v, _Obj) and v.tuple_like:
+                v = tuple(v.fields.values())
             if isinstance(v, (tuple, list)) and len(v) == n:
                 for e, x in zip(t.elts, v):
                     self.assign(e, x, fr)
@@ -664,6 +731,15 @@ class Evaluator:
                     fr.env[nm] = T("store", (fr.env.get(nm), key, tm._fz(v)), tm.tyof(fr.env.get(nm)))
         elif isinstance(t, ast.Attribute):
             parts = dotted_parts(t)
+            if parts and parts[0] in fr.env and isinstance(fr.env[parts[0]], _Obj):
+                o = fr.env[parts[0]]
+                for a in parts[1:-1]:
+                    o = self.getattr_value(o, a)
+                if isinstance(o, _Obj):
+                    if o.tuple_like:
+                        raise _ExprRaise("AttributeError")
+                    o.fields[parts[-1]] = v
+                    return
             if parts:
                 fr.env[".".join(parts)] = v
         elif isinstance(t, ast.Starred):
@@ -680,6 +756,9 @@ class Evaluator:
 
     def expr_stmt(self, e, fr):
         # mutating method calls on local containers
+        if isinstance(e, ast.Call) and isinstance(e.func, ast.Attribute) and isinstance(self._peek_value(e.func.value, fr), _Obj):
+            self.expr(e, fr)  # a method of a package object that happens to be called append / update / pop / ...
+            return
         if isinstance(e, ast.Call) and isinstance(e.func, ast.Attribute):
             meth = e.func.attr
             recv_node = e.func.value
@@ -752,6 +831,18 @@ class Evaluator:
                                    tm.tyof(fr.env[nm]))
                 return
         self.expr(e, fr)
+
+    def _peek_value(self, node, fr):
+        """The value a plain name / attribute chain of names denotes, without evaluating anything else (None otherwise)."""
+        parts = dotted_parts(node)
+        if not parts or parts[0] not in fr.env:
+            return None
+        v = fr.env[parts[0]]
+        for a in parts[1:]:
+            if not isinstance(v, _Obj) or a not in v.fields:
+                return None
+            v = v.fields[a]
+        return v
 
     def if_(self, st, fr):
         c = self.decide(tm.truth(self.expr(st.test, fr)))
@@ -828,7 +919,12 @@ class Evaluator:
         pre_env = clone(fr.env)
         pre_facts = list(fr.facts)
         marks0 = (len(fr.summary.calls), len(fr.summary.hazards))
+        olog0 = len(self._opaque_log)
         body_done = self.block(st.body, fr)
+        # AssertionError comes only from assert statements and explicit raises: when every call of the body was inlined (its
+        # explicit exits are handled below) or its result is scripted by the obligation, no implicit AssertionError exists
+        unscripted = [a for a in self._opaque_log[olog0:] if not (self.bind and a in self.bind)]
+        no_implicit_assert = not unscripted
         # a body that made no call and met no raising primitive (e.g. a lookup that was decided on constants) cannot raise
         # anything beyond its explicit exits: no opaque `except` flow is needed for it
         body_inert = (len(fr.summary.calls), len(fr.summary.hazards)) == marks0 and not any(
@@ -867,6 +963,8 @@ class Evaluator:
         for h, names in handled:
             if body_inert:
                 break
+            if no_implicit_assert and all(n == "AssertionError" for n in names):
+                continue
             g = T("except", (tuple(names), _try_key(st)), tm.BOOL)
             fh, hd, hexits = run_handler(h, names, [g], [])
             new_exits.extend(hexits)
@@ -1136,11 +1234,13 @@ class Evaluator:
         if m is None:
             raise AnalysisError("expression kind not modelled: %s at %s:%d" % (type(e).__name__, fr.modname, e.lineno))
         r = m(e, fr)
-        if isinstance(r, T) and r.op == "raise" and r.args and isinstance(r.args[0], str) and r.args[0] in ("ValueError", "KeyError", "IndexError") and fr.fi is not None and fr.loopdepth == 0:
+        if self.bind and isinstance(r, T) and r in self.bind:
+            r = self.bind[r]  # scripted result (possibly a scripted refusal: T("raise", ...))
+            if not (isinstance(r, T) and r.op == "raise"):
+                return r
+        if isinstance(r, T) and r.op == "raise" and r.args and isinstance(r.args[0], str) and r.args[0] in ("ValueError", "KeyError", "IndexError", "AssertionError") and fr.fi is not None and fr.loopdepth == 0:
             raise _ExprRaise(r.args[0])
         if self.bind and isinstance(r, T):
-            if r in self.bind:
-                return self.bind[r]
             if not isinstance(e, (ast.Name, ast.Constant)):
                 b = self.bind
                 if self._bind_memo_for is not b:
@@ -1182,10 +1282,23 @@ class Evaluator:
         if r[0] == "attr":
             base = self.ref(r[1])
             return self.getattr_value(base, r[2])
+        if r[0] == "classattr":
+            _meths, assigns = self.class_members(r[1].name, r[2])
+            for mn, st in assigns:
+                names = [t.id for t in st.targets if isinstance(t, ast.Name)] if isinstance(st, ast.Assign) else ([st.target.id] if isinstance(st.target, ast.Name) else [])
+                if r[3] in names and st.value is not None:
+                    return self.expr(st.value, Frame(self, mn, None, Summary(None), 0))
+            return T("raise", ("AttributeError",))
         return tm.unk("ref")
 
     def e_Attribute(self, e, fr):
         parts = dotted_parts(e)
+        self._cur = fr
+        if parts and parts[0] in fr.env and isinstance(fr.env[parts[0]], _Obj):
+            v = fr.env[parts[0]]
+            for a in parts[1:]:
+                v = self.getattr_value(v, a)
+            return v
         if parts and parts[0] not in fr.env:
             key = ".".join(parts)
             if key in fr.env:
@@ -1196,7 +1309,60 @@ class Evaluator:
         base = self.expr(e.value, fr)
         return self.getattr_value(base, e.attr)
 
+    def class_members(self, modname, cls):
+        """(methods, class-level assignment nodes) of a package class, own members first, then package base classes."""
+        out_m, out_a = {}, []
+        seen = set()
+        work = [(modname, cls)]
+        while work:
+            mn, cn = work.pop(0)
+            if (mn, cn) in seen or mn not in self.prog.modules:
+                continue
+            seen.add((mn, cn))
+            m = self.prog.modules[mn]
+            for k, v in m.classes.get(cn, {}).items():
+                out_m.setdefault(k, v)
+            node = m.classnodes.get(cn)
+            if node is None:
+                continue
+            for st in node.body:
+                if isinstance(st, (ast.Assign, ast.AnnAssign)):
+                    out_a.append((mn, st))
+            for b in node.bases:
+                parts = dotted_parts(b)
+                r = self.prog.resolve_chain(mn, parts) if parts else None
+                if r is not None and r[0] == "class":
+                    work.append((r[1].name, r[2]))
+        return out_m, out_a
+
     def getattr_value(self, base, attr):
+        if isinstance(base, _Obj):
+            if attr in base.fields:
+                return base.fields[attr]
+            meths, assigns = self.class_members(base.modname, base.cls)
+            if attr in meths:
+                decos = {ast.unparse(d) for d in meths[attr].node.decorator_list}
+                if "property" in decos or "functools.cached_property" in decos or "cached_property" in decos:
+                    return self.call_fn(meths[attr], [base], {}, meths[attr].node, self._cur if getattr(self, "_cur", None) is not None else Frame(self, base.modname, None, Summary(None), 0))
+                return T("boundmethod", (base, attr))
+            for mn, st in assigns:
+                names = [t.id for t in st.targets if isinstance(t, ast.Name)] if isinstance(st, ast.Assign) else ([st.target.id] if isinstance(st.target, ast.Name) else [])
+                if attr in names and st.value is not None:
+                    return self.expr(st.value, Frame(self, mn, None, Summary(None), 0))
+            if base.tuple_like and attr == "_fields":
+                return tuple(base.fields.keys())
+            return T("raise", ("AttributeError",))
+        if isinstance(base, T) and base.op == "classref" and len(base.args) == 1 and "." in base.args[0]:
+            cmod, ccls = base.args[0].rsplit(".", 1)
+            m = self.prog.modules.get(cmod)
+            if m is not None:
+                return self.ref(self.prog.resolve_chain(cmod, [ccls, attr]))
+        if isinstance(base, T) and base.op == "structobj" and attr == "size":
+            lay = _struct_layout(base.args[0])
+            if lay is not None:
+                return sum(w for _, w, _ in lay[1])
+        if isinstance(base, T) and base.op == "structobj" and attr == "format":
+            return base.args[0]
         if isinstance(base, T) and base.op == "modref":
             r = self.prog.resolve_chain(base.args[0].rsplit(".", 1)[0] if False else base.args[0], [attr]) \
                 if base.args[0] in self.prog.modules else None
@@ -1418,7 +1584,21 @@ class Evaluator:
             return tm.ite(base.args[0], self.index(_unfz(base.args[1]), key), self.index(_unfz(base.args[2]), key))
         return self.index(base, key)
 
+    def subscript_value(self, base, key, e, fr):
+        """base[key] for values (used by operator.itemgetter and friends)."""
+        if isinstance(key, slice):
+            if key.step in (None, 1):
+                return tm.slc(base, key.start, key.stop)
+            return T("slice3", (tm._fz(base), key.start, key.stop, key.step), tm.tyof(base))
+        self._cur, self._curnode = fr, e
+        return self.index(base, key)
+
     def index(self, base, key):
+        if isinstance(base, _Obj) and base.tuple_like and isinstance(key, int) and not isinstance(key, bool):
+            vals = list(base.fields.values())
+            if -len(vals) <= key < len(vals):
+                return vals[key]
+            return T("raise", ("IndexError",))
         if isinstance(base, tuple) and base and base[0] in ("#list", "#tuple") and isinstance(key, int):
             items = base[1:]
             if -len(items) <= key < len(items):
@@ -1565,7 +1745,7 @@ class Evaluator:
                     return self.method(self.ref(r[1]), r[2], pos, kw, e, fr)
                 return self.call_ref(r, pos, kw, e, fr)
             recv = self.expr(f.value, fr)
-            if f.attr in _MUTATORS and not isinstance(recv, (str, bytes, int, float)) and tm.tyof(recv) in (tm.LIST, tm.DICT, tm.ANY, tm.BYTES):
+            if f.attr in _MUTATORS and not isinstance(recv, (str, bytes, int, float, _Obj)) and tm.tyof(recv) in (tm.LIST, tm.DICT, tm.ANY, tm.BYTES):
                 return self.mutating_call(f.value, recv, f.attr, pos, kw, e, fr)
             return self.method(recv, f.attr, pos, kw, e, fr)
         if isinstance(f, ast.Name):
@@ -1611,9 +1791,58 @@ class Evaluator:
                 fr.env[nm] = T("mutated", (meth, tm._fz(fr.env[nm]), tm._fz(recv)) + tuple(tm._fz(a) for a in pos), tm.tyof(fr.env[nm]))
         return res
 
+    _HARMLESS_DECORATORS = ("functools.wraps", "functools.lru_cache", "functools.cache", "staticmethod", "classmethod", "property", "typing.overload",
+                            "functools.singledispatch", "abc.abstractmethod", "dataclasses.dataclass", "dataclass")
+
+    def _package_decorators(self, fi, fr):
+        """Decorators of a module-level function that are functions of the package (they replace the function by what they
+        return); memoisation / metadata decorators of the standard library leave behaviour unchanged and are skipped."""
+        out = []
+        for d in getattr(fi.node, "decorator_list", []):
+            target = d.func if isinstance(d, ast.Call) else d
+            parts = dotted_parts(target)
+            if not parts:
+                raise AnalysisError("decorator of %s not modelled: %s" % (fi.qualname, ast.unparse(d)[:60]))
+            r = self.prog.resolve_chain(fi.module.name, parts)
+            name = ".".join(parts)
+            if r is None or r[0] == "extern":
+                full = r[1] if r is not None else name
+                if any(full == h or full.endswith("." + h) or name == h for h in self._HARMLESS_DECORATORS):
+                    continue
+                raise AnalysisError("decorator of %s not modelled: %s" % (fi.qualname, ast.unparse(d)[:60]))
+            if r[0] != "func":
+                raise AnalysisError("decorator of %s not modelled: %s" % (fi.qualname, ast.unparse(d)[:60]))
+            dv = T("fn", (r[1].qualname,))
+            if isinstance(d, ast.Call):  # a decorator factory: decorator(args)(f)
+                mfr = Frame(self, fi.module.name, None, Summary(None), 0)
+                dv = self.call_value(dv, [self.expr(a, mfr) for a in d.args], {k.arg: self.expr(k.value, mfr) for k in d.keywords if k.arg}, d, fr)
+            out.append(dv)
+        return out
+
     def call_value(self, fv, pos, kw, e, fr):
+        if isinstance(fv, _Closure):
+            return self.call_fn(fv.fi, pos, kw, e, fr, closure_env=fv.env)
+        if isinstance(fv, T) and fv.op == "fnraw":
+            return self.call_fn(self.prog.function(fv.args[0]), pos, kw, e, fr, raw=True)
+        if isinstance(fv, T) and fv.op == "partial":
+            p_fn, p_pos, p_kw = fv.args[0], list(_unfz(fv.args[1])), dict(_unfz(fv.args[2]))
+            p_kw.update(kw)
+            return self.call_value(_unfz(p_fn) if not isinstance(p_fn, (T, _Closure)) else p_fn, p_pos + list(pos), p_kw, e, fr)
+        if isinstance(fv, T) and fv.op == "itemgetter" and len(pos) == 1 and not kw:
+            keys = [_unslice(k) for k in fv.args]
+            vals = [self.subscript_value(pos[0], k, e, fr) for k in keys]
+            return vals[0] if len(vals) == 1 else tuple(vals)
+        if isinstance(fv, T) and fv.op == "attrgetter" and len(pos) == 1 and not kw and len(fv.args) == 1 and "." not in fv.args[0]:
+            return self.getattr_value(pos[0], fv.args[0])
+        if isinstance(fv, T) and fv.op == "boundmethod":
+            return self.method(_unfz(fv.args[0]) if not isinstance(fv.args[0], (T, _Obj)) else fv.args[0], fv.args[1], list(pos), kw, e, fr)
         if isinstance(fv, T) and fv.op == "fn":
             return self.call_fn(self.prog.function(fv.args[0]), pos, kw, e, fr)
+        if isinstance(fv, T) and fv.op == "classref" and len(fv.args) == 1 and "." in fv.args[0]:
+            cmod, ccls = fv.args[0].rsplit(".", 1)
+            obj = self.instantiate(cmod, ccls, list(pos), kw, e, fr)  # cls(...) inside a classmethod
+            if obj is not None:
+                return obj
         if isinstance(fv, T) and fv.op == "ext":
             return self.extern(fv.args[0], pos, kw, e, fr)
         if isinstance(fv, T) and fv.op == "ext" and isinstance(fv.args[0], str):
@@ -1622,23 +1851,86 @@ class Evaluator:
             return tm.ite(fv.args[0], self.call_value(_unfz(fv.args[1]), pos, kw, e, fr),
                           self.call_value(_unfz(fv.args[2]), pos, kw, e, fr))
         fr.summary.calls.append(("value:" + tm.show(fv), pos, kw, e, tuple(fr.guard), tuple(fr.facts), dict(fr.iters)))
-        return tm.app("call", [fv] + pos, tuple(sorted(kw.items())))
+        r = tm.app("call", [fv] + pos, tuple(sorted(kw.items())))
+        self._opaque_log.append(r)
+        return r
 
     def call_ref(self, r, pos, kw, e, fr):
         if r[0] == "func":
+            if r[1].cls and "classmethod" in {ast.unparse(d) for d in r[1].node.decorator_list}:
+                pos = [T("classref", (r[1].module.name + "." + r[1].cls,))] + list(pos)  # Class.method(...): cls is the class
             return self.call_fn(r[1], pos, kw, e, fr)
+        if r[0] == "classattr":
+            return self.call_value(self.ref(r), pos, kw, e, fr)
         if r[0] == "extern":
             return self.extern(r[1], pos, kw, e, fr)
         if r[0] == "class":
             name = r[1].name + "." + r[2]
+            obj = self.instantiate(r[1].name, r[2], pos, kw, e, fr)
+            if obj is not None:
+                return obj
             fr.summary.calls.append((name, pos, kw, e, tuple(fr.guard), tuple(fr.facts), dict(fr.iters)))
             return tm.app("new:" + name, pos, tuple(sorted(kw.items())))
         if r[0] == "const":
             return self.call_value(self.const(r[1].name, r[2]), pos, kw, e, fr)
         return tm.app("call?", pos)
 
-    def call_fn(self, fi, pos, kw, e, fr, skip_self=False):
+    def instantiate(self, modname, cls, pos, kw, e, fr):
+        """Create an instance of a small package class: a NamedTuple / dataclass (fields from the annotated class body), or a
+        class whose __init__ can be inlined. None when the class is not of that kind (the call stays opaque)."""
+        m = self.prog.modules.get(modname)
+        node = m.classnodes.get(cls) if m is not None else None
+        if node is None:
+            return None
+        bases = {(".".join(dotted_parts(b) or ["?"])).split(".")[-1] for b in node.bases}
+        decos = {(".".join(dotted_parts(d.func if isinstance(d, ast.Call) else d) or ["?"])).split(".")[-1] for d in node.decorator_list}
+        meths, assigns = self.class_members(modname, cls)
+        if "NamedTuple" in bases or "dataclass" in decos:
+            names, defaults = [], {}
+            for mn, st in assigns:
+                if isinstance(st, ast.AnnAssign) and isinstance(st.target, ast.Name) and "ClassVar" not in ast.unparse(st.annotation):
+                    names.append(st.target.id)
+                    if st.value is not None:
+                        defaults[st.target.id] = self.expr(st.value, Frame(self, mn, None, Summary(None), 0))
+            if len(pos) > len(names) or any(k not in names for k in kw):
+                return T("raise", ("TypeError",))
+            fields = {}
+            for nme, v in zip(names, pos):
+                fields[nme] = v
+            for k, v in kw.items():
+                if k in fields:
+                    return T("raise", ("TypeError",))
+                fields[k] = v
+            for nme in names:
+                if nme not in fields:
+                    if nme not in defaults:
+                        return T("raise", ("TypeError",))
+                    fields[nme] = defaults[nme]
+            obj = _Obj(modname, cls, {nme: fields[nme] for nme in names}, tuple_like="NamedTuple" in bases)
+            if "dataclass" in decos and "__post_init__" in meths:
+                self.call_fn(meths["__post_init__"], [obj], {}, e, fr)
+            return obj
+        if bases - {"object"} or (modname + "." + cls + ".__init__") in self.policy.opaque or not getattr(self, "model_objects", True):
+            return None
+        if len(meths) > 12:
+            return None  # a large stateful class (the P2P node): its instances stay opaque
+        obj = _Obj(modname, cls, {})
+        if "__init__" in meths:
+            self.call_fn(meths["__init__"], [obj] + list(pos), kw, e, fr)
+        elif pos or kw:
+            return T("raise", ("TypeError",))
+        return obj
+
+    def call_fn(self, fi, pos, kw, e, fr, skip_self=False, closure_env=None, raw=False):
         q = fi.qualname
+        if not raw and closure_env is None and q not in self.policy.prims and q not in self.policy.opaque:
+            deco = self._package_decorators(fi, fr)
+            if deco:
+                # @decorator def f(...): calling f is calling decorator(f)(...), innermost decorator first
+                fv = T("fnraw", (q,))
+                for d in reversed(deco):
+                    fv = self.call_value(d, [fv], {}, e, fr)
+                return self.call_value(fv, pos, kw, e, fr)
         fr.summary.calls.append((q, pos, kw, e, tuple(fr.guard), tuple(fr.facts), dict(fr.iters)))
         bound = self.bind_call(fi, pos, kw, skip_self=skip_self)
         prim = self.policy.prims.get(q)
@@ -1657,9 +1949,13 @@ class Evaluator:
                 names += [p.arg for p in a.kwonlyargs if p.arg in bound]
                 if a.kwarg is not None and a.kwarg.arg in bound and bound[a.kwarg.arg]:
                     names.append(a.kwarg.arg)
-                return tm.app(q, [bound[n] for n in names], ty=rty)
-            return tm.app(q, pos, tuple(sorted(kw.items())), ty=rty)
-        sub = self.run(fi, bound, depth=fr.depth + 1)
+                r = tm.app(q, [bound[n] for n in names], ty=rty)
+                self._opaque_log.append(r)
+                return r
+            r = tm.app(q, pos, tuple(sorted(kw.items())), ty=rty)
+            self._opaque_log.append(r)
+            return r
+        sub = self.run(fi, bound, depth=fr.depth + 1, closure_env=closure_env)
         fr.summary.loops.extend(sub.loops)
         fr.summary.hazards.extend((h[0], h[1], h[2], tuple(fr.guard) + tuple(h[3]), tuple(fr.facts) + tuple(h[4]), h[5],
                                    _merge_iters(fr.iters, h[6] if len(h) > 6 else {})) for h in sub.hazards)
@@ -1691,6 +1987,33 @@ class Evaluator:
 
     # ---- methods on values
     def method(self, recv, meth, pos, kw, e, fr):
+        if isinstance(recv, _Obj):
+            meths, _assigns = self.class_members(recv.modname, recv.cls)
+            if meth in meths:
+                decos = {ast.unparse(d) for d in meths[meth].node.decorator_list}
+                if "staticmethod" in decos:
+                    return self.call_fn(meths[meth], list(pos), kw, e, fr)
+                if "classmethod" in decos:
+                    return self.call_fn(meths[meth], [T("classref", (recv.modname + "." + recv.cls,))] + list(pos), kw, e, fr)
+                return self.call_fn(meths[meth], [recv] + list(pos), kw, e, fr)
+            if recv.tuple_like and meth == "_asdict" and not pos:
+                return dict(recv.fields)
+            if recv.tuple_like and meth == "_replace" and not pos:
+                o = clone(recv)
+                o.fields.update(kw)
+                return o
+            if meth in recv.fields:
+                return self.call_value(recv.fields[meth], list(pos), kw, e, fr)
+            raise AnalysisError("method %s of %s.%s not modelled" % (meth, recv.modname, recv.cls))
+        if isinstance(recv, T) and recv.op == "classref":
+            cmod, ccls = recv.args[0].rsplit(".", 1)
+            meths, _assigns = self.class_members(cmod, ccls)
+            if meth in meths:
+                decos = {ast.unparse(d) for d in meths[meth].node.decorator_list}
+                if "classmethod" in decos:
+                    return self.call_fn(meths[meth], [recv] + list(pos), kw, e, fr)
+                if "staticmethod" in decos:
+                    return self.call_fn(meths[meth], list(pos), kw, e, fr)
         ty = tm.tyof(recv)
         fr.summary.calls.append(("method:" + meth, [recv] + list(pos), kw, e, tuple(fr.guard), tuple(fr.facts), dict(fr.iters)))
         if isinstance(recv, T) and recv.op == "ite" and meth not in ("append",):
@@ -1841,7 +2164,9 @@ class Evaluator:
                 if "staticmethod" in decos:
                     return self.call_fn(meths[meth], list(pos), kw, e, fr)
                 return self.call_fn(meths[meth], [recv] + pos, kw, e, fr)
-        return tm.app("m:" + meth, [recv] + pos, tuple(sorted(kw.items())))
+        r = tm.app("m:" + meth, [recv] + pos, tuple(sorted(kw.items())))
+        self._opaque_log.append(r)
+        return r
 
     # ---- externs (builtins / stdlib), by name
     def extern(self, name, pos, kw, e, fr):
@@ -1853,7 +2178,9 @@ class Evaluator:
             r = NotImplemented
         if r is not NotImplemented:
             return r
-        return tm.app(n, pos, tuple(sorted(kw.items())), _EXT_TY.get(n, tm.ANY))
+        r = tm.app(n, pos, tuple(sorted(kw.items())), _EXT_TY.get(n, tm.ANY))
+        self._opaque_log.append(r)
+        return r
 
     def _extern(self, n, pos, kw, e, fr):
         a0 = pos[0] if pos else None
@@ -1895,6 +2222,12 @@ class Evaluator:
                     return _struct_unpack(lay, pos[1], pos[2] if len(pos) == 3 else 0, exact=False)
                 if n == "struct.pack" and len(pos) == 1 + len(lay[1]):
                     return _struct_pack(lay, pos[1:])
+        if n == "functools.partial" and pos:
+            return T("partial", (pos[0] if isinstance(pos[0], (T, _Closure)) else tm._fz(pos[0]), tm.freeze(list(pos[1:])), tm.freeze(dict(kw))))
+        if n == "operator.itemgetter" and pos and not kw:
+            return T("itemgetter", tuple(_fzslice(k) for k in pos))
+        if n == "operator.attrgetter" and len(pos) == 1 and isinstance(a0, str) and not kw:
+            return T("attrgetter", (a0,))
         if n == "functools.reduce" and 2 <= len(pos) <= 3 and not kw:
             seq0 = _concrete_iter(pos[1]) if not isinstance(pos[1], (str, bytes, dict)) else None
             if seq0 is not None and len(seq0) <= MAX_UNROLL:
@@ -2130,6 +2463,19 @@ class Evaluator:
             if seq is not None:
                 return tm.lor([tm.truth(x) for x in seq])
             return T("any", (tm._fz(a0),), tm.BOOL)
+        if n == "map" and len(pos) == 2 and (isinstance(pos[0], _Closure) or (isinstance(pos[0], T) and pos[0].op in ("itemgetter", "attrgetter", "partial", "fn", "ext", "boundmethod"))):
+            seq = _concrete_iter(pos[1]) if not isinstance(pos[1], (str, dict)) else None
+            if seq is not None and len(seq) <= MAX_UNROLL:
+                return [self.call_value(pos[0], [x], {}, e, fr) for x in seq]
+            if seq is None:
+                # one call per element of a sequence of unknown structure: the same term a comprehension [f(x) for x in seq] gives
+                d = fr.loopdepth
+                fr.loopdepth = d + 1
+                try:
+                    body = self.call_value(pos[0], [tm.bv(d, tm.INT if tm.tyof(pos[1]) == tm.BYTES else tm.ANY)], {}, e, fr)
+                finally:
+                    fr.loopdepth = d
+                return tm.mapt(tm._fz(body), pos[1], None, tm.LIST)
         if n in ("map", "filter") and len(pos) == 2 and isinstance(pos[0], T) and pos[0].op == "lambda":
             seq = _concrete_iter(pos[1])
             if seq is not None and n == "map":
